@@ -78,6 +78,7 @@ func (n *node) recv(c *conn, cls string, seed int64, limit time.Duration) map[st
 	if p.noSplit {
 		mode = 0
 	}
+	b.mode, b.limit = mode, limit
 	var m0, m1 runtime.MemStats
 	t0 := time.Now()
 	runtime.ReadMemStats(&m0)
@@ -229,12 +230,16 @@ func driveRun(args []string) error {
 				c.cli.Close() // the attacker may always hang up
 			}
 			m := map[string]interface{}{"alive": true}
+			var m0, m1 runtime.MemStats
+			runtime.ReadMemStats(&m0)
 			if rq.Op == "Connect" {
 				c = n.accept()
 			} else {
 				c = n.dial()
 			}
 			ok, last, _ := quiesce(limit)
+			runtime.ReadMemStats(&m1)
+			m["allocK"] = kib(m1.TotalAlloc - m0.TotalAlloc)
 			if rq.Op == "Dial" {
 				// the node has sent its handshake request: the evil listener decrypts it with its own key, as any remote would
 				m["req"] = c.takeRequest()
